@@ -387,10 +387,16 @@ class IntegrityChecker(object):
                             level="violation",
                             category="feature size"))
             else:
-                if len(self.ds[feat]) != lends:
+                if feat == "contour" and self.ds.format == "hdf5":
+                    # The length of the contour feature is taken from the
+                    # metadata; count the stored contours instead.
+                    lenfeat = len(self.ds.h5file["events"]["contour"])
+                else:
+                    lenfeat = len(self.ds[feat])
+                if lenfeat != lends:
                     cues.append(ICue(
                         msg=f"Features: wrong event count: '{feat}' "
-                            + f"({len(self.ds[feat])} of {lends})",
+                            + f"({lenfeat} of {lends})",
                         level="violation",
                         category="feature size"))
         return cues
